@@ -15,7 +15,7 @@ ALL = [f"C{i:02d}" for i in range(1, 21)]
 CHECKS = {
     "C09": ("exploration",
             "stateful property testing (rapid) of all nine joins over fake API servers and typed base controllers; oracle = reference selection (C19 ownership predicates) over the servers' state, strict mirror, readiness, goroutine footprint and base liveness after Close",
-            "For a join drawn per case the harness owns both (three for IngressPods) API servers, gates the bases' first lists in generated combinations, interleaves source and destination histories, and cycles create/close of joins over long-lived bases. After a destination-side double marker the join cache must converge on its own to the reference selection; after a source-side probe barrier the strict mirror of its events must equal its cache; the join must not be ready or emit before both bases are ready; closing it must bring the count of library-created goroutines back to the bases' own footprint and leave each base delivering fresh events.",
+            "For a join drawn per case the harness owns both (three for IngressPods) API servers, gates the bases' first lists in generated combinations, interleaves source and destination histories, and cycles create/close of joins over long-lived bases. After a destination-side double marker the join cache must converge on its own to the reference selection; after a source-side probe barrier the strict mirror of its events must equal its cache; the join must not be ready or emit before both bases are ready; closing it - also before it can have become ready - must bring the count of library-created goroutines back to the bases' own footprint and leave each base delivering fresh events; a join over an empty source collection must still become ready, selecting nothing.",
             "RCPods is exercised in a single namespace because of the recorded C19 finding; a first differing comparison is given the wedge bound to converge (quiescent-state property).",
             "DESIGN.md section 4, C09"),
     "C20": ("translation_validation",
@@ -24,7 +24,7 @@ CHECKS = {
             "Instantiation is re-implemented in the harness (identifier substitution / text/template execution), goimports' import block is ignored; behaviour is sampled (rapid), source and the 12x2 request table are complete.",
             "DESIGN.md section 4, C20"),
     "C03": ("fault_enumeration",
-            "property-based fault injection (rapid-generated server histories, watch fault plans and list schedules against a fake API server with gated lists and held Watch calls); oracle = per-key allowed-set at every completed relist + strict subscriber mirror + exact convergence after one final relist",
+            "property-based fault injection (rapid-generated server histories, watch fault plans and list schedules against a fake API server with gated lists and held Watch calls); oracle = per-key allowed-set at every completed relist + strict subscriber mirror + exact convergence after one final relist; plus generated backlog scenarios (controller kept busy while 20-300 watch events and a relist result pile up): convergence, continued relisting, Close",
             "The harness owns the client: it decides when each list returns and with which snapshot (taken at call or at release), what the watch delivers, drops, duplicates or injects, and it holds the Watch call that follows each applied list so that the cache can be inspected exactly at the completion of that relist. Every key must hold a value from the allowed set derived from the list and the in-flight events, the unfiltered subscriber's strict mirror must converge to the cache, and once the server stops changing one further relist must give exact equality — also with a watch that never connects.",
             "Completion of a relist is observed as the Watch(resourceVersion = list RV) call; the allowed set is a superset of the reachable outcomes (sound, slightly permissive).",
             "DESIGN.md section 4, C03"),
@@ -34,13 +34,13 @@ CHECKS = {
             "Pays the library's constant 1 s retry delay per reconnect (not hookable add-only); throughput comes from many idle processes. Harness-induced buffer overflows are detected through the library's own log and discarded.",
             "DESIGN.md section 4, C04"),
     "C13": ("exploration",
-            "complete grid over (period, list latency, consumption delay) + rapid triples and shutdown instants, both runtime timer modes; oracle = fake client's call record (no overlap, gap >= 0.9 P, bounded liveness, prompt Close)",
+            "complete grid over (period, list latency, consumption delay) + rapid triples and shutdown instants, both runtime timer modes; oracle = fake client's call record (no overlap, gap >= 0.9 P, bounded liveness, prompt Close); plus generated list faults (kind x error value x k): afterwards the controller has stopped or is still relisting",
             "Each configuration runs a real controller against a fake client whose List sleeps L and whose watch event, published just before a list returns, makes the controller spend D before consuming the result. The call record must show one list at a time, gaps of at least 0.9 P, continued listing (wedge detection with a generous, re-confirmed bound) and a prompt Close at any instant of the cycle. Exploration: real time, so only lower bounds and wedges are asserted.",
             "No injectable clock: upper bounds are not correctness signals. Both GODEBUG asynctimerchan modes are run because the harness module's Go version differs from kcache's.",
             "DESIGN.md section 4, C13"),
     "C14": ("fault_enumeration",
             "enumerated list-failure kinds x failing list index x generated subscriber trees, and generated watch-failure sequences; oracle = fail-stop with cause for list failures, survival and convergence for watch failures, clean Error() for deliberate Close",
-            "Five kinds of bad list results are injected at the k-th list for k = 1..5 under generated trees: the controller must stop with a non-nil Error() carrying the cause, be Ready only if an earlier list succeeded, and take its whole subtree down without leaks. Watch connect-error streaks, abrupt closes and non-object frames at generated positions must leave the controller running (Error() == still running) and converging through the watch; Close() must leave Error() nil.",
+            "Five kinds of bad list results (the List-error kind with twelve generated error values: plain, context.Canceled/DeadlineExceeded bare and wrapped, EOFs, a temporary net error, API status errors) are injected at the k-th list for k = 1..5 under generated trees: the controller must stop with a non-nil Error() carrying the cause, be Ready only if an earlier list succeeded, and take its whole subtree down without leaks. Watch connect-error streaks, abrupt closes and non-object frames at generated positions must leave the controller running (Error() == still running) and converging through the watch; Close() must leave Error() nil.",
             "Bounded liveness for Done(); ctx-cancel error value is only required to be nil or context.Canceled.",
             "DESIGN.md section 4, C14"),
     "C05": ("exploration",
@@ -75,7 +75,7 @@ CHECKS = {
             "DESIGN.md section 4, C06"),
     "C07": ("exploration",
             "bounded-exhaustive enumeration (256 contents x 512 filter triples) + rapid chains; oracle = exact event multiset / identity / restoration between two barriers",
-            "Every parent content over the 4-key universe and every ordered triple of the 8-filter family is executed against a real filtered subscription as a chain of Refilter calls; each call's events between two double-marker barriers must be exactly one Delete per cached object the new filter rejects and one Create per newly accepted parent object, retained objects keep their identity, equal filters emit nothing, and returning to the first filter restores its view. The quick tier already runs the complete enumeration.",
+            "Every parent content over the 4-key universe and every ordered triple of the 8-filter family is executed against a real filtered subscription as a chain of Refilter calls; each call's events between two double-marker barriers must be exactly one Delete per cached object the new filter rejects and one Create per newly accepted parent object, retained objects keep their identity, equal filters emit nothing, and returning to the first filter restores its view; the same over all ordered pairs of a 15-member composite family (duplicated / permuted / replaced children, empty composites, double negation), and rapid chains over family filters and generated structurally-nearby filters on deeper trees. The quick tier already runs both complete enumerations.",
             "Premise of the property is enforced by the harness: the node is ready and no parent event is in flight during a checked Refilter.",
             "DESIGN.md section 4, C07"),
     "C08": ("exploration",
